@@ -53,17 +53,39 @@ Fixpoint join_slash (segs : list text) : text :=
 
 Definition has_colon (t : text) : bool := existsb (fun c => c =? 58) t.
 
+(* the stack after all segments but the last (most recent first) *)
+Fixpoint rel_stack_rev (stack : list text) (segs : list text) : list text :=
+  match segs with
+  | [] => stack
+  | s :: r =>
+    if is_dot s then rel_stack_rev stack r
+    else if is_dotdot s then
+      match stack with
+      | top :: st' => if is_dotdot top then rel_stack_rev (s :: stack) r else rel_stack_rev st' r
+      | [] => rel_stack_rev [s] r
+      end
+    else rel_stack_rev (s :: stack) r
+  end.
+
+(* the segments of the normal form: a final "." or a final ".." that cancels a segment leaves a
+   trailing slash (an empty last segment), as in RFC 3986 5.2.4 steps 2B and 2C *)
+Definition rel_segments (segs : list text) : list text :=
+  let st := rel_stack_rev [] (removelast segs) in
+  let l := last segs [] in
+  if is_dot l then rev ([] :: st)
+  else if is_dotdot l then
+    match st with
+    | top :: st' => if is_dotdot top then rev (l :: st) else rev ([] :: st')
+    | [] => [l]
+    end
+  else rev (l :: st).
+
 (* normal form of the path of a relative-path reference (no scheme, no authority, rootless) *)
 Definition rel_path_normal (p : text) : text :=
   match p with
   | [] => []
   | _ =>
-    let segs := split_on 47 p in
-    let last_seg := last segs [] in
-    let body := rel_stack [] segs in
-    (* a removed final "." / cancelled final ".." leaves a trailing slash *)
-    let ends_in_dir := is_dot last_seg || (is_dotdot last_seg && negb (is_dotdot (last body [1]))) in
-    let body := if ends_in_dir then body ++ [[]] else body in
+    let body := rel_segments (split_on 47 p) in
     match body with
     | [] | [[]] => [46; 47]                                        (* everything cancelled: "./" *)
     | first :: _ =>
